@@ -222,13 +222,13 @@ type SMSOutbox struct {
 }
 
 func (o *SMSOutbox) Send(ctx context.Context, number, text string) error {
-	if err := o.B.Enter("SMSSend", nil); err != nil {
-		return err
-	}
+	// An injected gateway failure is reported after the message went out (a
+	// timeout after delivery): the code in the text is the one authboss keeps in
+	// the session either way, so the outbox is the complete record of issued codes.
 	o.mu.Lock()
 	o.Sent = append(o.Sent, SMS{number, text})
 	o.mu.Unlock()
-	return nil
+	return o.B.Enter("SMSSend", nil)
 }
 func (o *SMSOutbox) Len() int { o.mu.Lock(); defer o.mu.Unlock(); return len(o.Sent) }
 func (o *SMSOutbox) Since(n int) []SMS {
